@@ -383,6 +383,9 @@ func c20OpenUnit(unit string, env *fw.Env) *fw.Result {
 					viol("open-panicked", fmt.Sprintf("%s: %v", name, r), map[string]any{"case": name})
 				}
 			}()
+			// only the database directory is writable while the engine opens on the damaged manifest
+			vos.SetJail(dir)
+			defer vos.SetJail("")
 			e, err := engine.NewEngineFacade(dir)
 			if err != nil {
 				return // opening failed with an error: fine
@@ -537,7 +540,7 @@ func init() {
 		ID:    "C20",
 		Level: "exploration",
 		Rule: "constraint table of 15 documented clauses written independently of Validate; for 3 valid base configurations: every single-field deviation over {bound-1, bound, bound+1, typical}, every pair of fields over all their values, and the full product warning x critical threshold in [-1,101]^2: Validate accepts <=> table; a rejected configuration makes SaveManifest fail without a single file-system call (recorded through the os shim); an accepted one is stored and loaded back equal in every field. Thorough tier: every triple of the 15 constrained fields over all their values, and every single / pair assignment of extreme values (int64 and int32 limits, 2^53+1, unknown sync modes, long and oddly-charactered directory names) to the fields without a documented constraint: valid, stored, loaded back equal. Open: a database created with an all-non-default configuration runs with it (also after reopen; custom directories used); every truncation of the stored manifest, every constrained setting removed or null, an empty object / null / array, every single-byte damage x 5 value classes and every crash cut / torn write of a manifest update over existing data: opening fails with an error or runs with the stored (old or new) configuration - never with defaults, and never when the stored object lacks a setting that has a documented constraint. Non-trivial = configurations violating a clause / damaged manifests",
-		Assumptions: []string{"a missing manifest is 'not found' (a new database), not 'invalid'", "a damaged byte that yields another valid configuration cannot be detected without a checksum and is not flagged; falling back to defaults is"},
+		Assumptions: []string{"a missing manifest is 'not found' (a new database), not 'invalid'", "a damaged byte that yields another valid configuration cannot be detected without a checksum and is not flagged; falling back to defaults is", "while an engine opens on a damaged manifest only the database directory is writable (os shim): directory paths damaged into places outside it fail with a permission error instead of littering the machine"},
 		Units: func(tier string) []string {
 			us := []string{"validate", "open/missing", "open/trunc", "open/byte/0/4", "open/byte/1/4", "open/byte/2/4", "open/byte/3/4", "open/crash"}
 			if tier == "thorough" {
